@@ -1,4 +1,5 @@
 import WfProofs.ReplayResume
+import WfModel.SerialCtx
 /-!
 The runner resumed from a serialised context, exactly:
 `workflow.run(ctx=Context.from_dict(json(ctx.to_dict())))`
@@ -14,26 +15,6 @@ set_option linter.unusedVariables false
 set_option linter.unusedSimpArgs false
 
 namespace Engine
-
-/-- what a step invocation is started with: the `InProgressState` row minus its worker slot and snapshots
-(= the `RetryAttempt` handed to `run_worker`: `ctx.retry_info()` and the recovery budget of the lineage) -/
-structure Started where
-  ev : Ev
-  attempts : Nat
-  firstAt : Int
-  lastExc : Option Nat
-  lastFailedAt : Option Int
-  rc : RC
-deriving DecidableEq, Repr
-
-def InProg.started (ip : InProg) : Started :=
-  { ev := ip.ev, attempts := ip.attempts, firstAt := ip.firstAt, lastExc := ip.lastExc,
-    lastFailedAt := ip.lastFailedAt, rc := ip.rc }
-
-/-- what `_add_or_enqueue_event` starts a queue entry with at clock `now` -/
-def Attempt.startedAt (now : Int) (a : Attempt) : Started :=
-  { ev := a.ev, attempts := orNat a.attempts 0, firstAt := orInt a.firstAt now, lastExc := a.lastExc,
-    lastFailedAt := a.lastFailedAt, rc := a.rc }
 
 theorem addOrEnqueue_begin (att : Attempt) (step : Nat) (ss : StepState) (nw : Nat) (now : Int)
     (h : IdsOk ss nw) (hlt : ss.inProg.length < nw) :
@@ -112,14 +93,6 @@ theorem rewindStep_started (c : StepCfg) (ss : StepState) (now : Int) :
   omega
 
 /-! ### the resumed runner, per step -/
-
-/-- the entry `from_serialized` makes of an in-progress event -/
-def freshAttempt (e : Ev) : Attempt := { ev := e, attempts := some 0, firstAt := none }
-
-/-- the not-yet-completed invocations of a step as the resumed run meets them: queued ones (with their
-records) first, then the ones that were in progress (as fresh entries) -/
-def resumedPending (ss : StepState) : List Attempt :=
-  ss.queue.map serAttempt ++ ss.inProg.map (fun ip => freshAttempt ip.ev)
 
 theorem deserStep_serStep_queue (ss : StepState) :
     (deserStep (serStep ss)).queue = resumedPending ss := by
